@@ -159,7 +159,7 @@ macro "frame_tac" : tactic => `(tactic| (
 
 macro "rest_tac" : tactic => `(tactic| (
   all_goals (simp only [upd, hasRight] at *)
-  all_goals (first | grind | (trace_state; sorry))))
+  all_goals grind))
 
 theorem inv_pushBegin (c : Cfg) {s s' : State} (h : Inv c s) (t n)
     (st : step c s (.pushBegin t n) = some s') : Inv c s' := by
@@ -236,7 +236,7 @@ theorem inv_pushSt (c : Cfg) {s s' : State} (h : Inv c s) (t)
       refine lnext_frame (s := s) rfl ?_ hl
       intro u hp; refine ⟨u, ?_⟩; simp only [PendC, upd, List.mem_append, List.mem_singleton] at *; grind
     all_goals (simp only [upd, hasRight, List.mem_append, List.mem_singleton] at *)
-    all_goals (first | grind | (trace_state; sorry))
+    all_goals grind
   all_goals (first | (simp at st; done) | skip)
 
 theorem inv_flush (c : Cfg) {s s' : State} (h : Inv c s) (t)
@@ -294,7 +294,7 @@ theorem inv_flush (c : Cfg) {s s' : State} (h : Inv c s) (t)
       exact key a (Or.inr ⟨u, (hpriv u a).1 ha⟩) b hl
     all_goals (clear key hc hpc)
     all_goals (simp only [upd, hasRight] at *)
-    all_goals (first | grind | (trace_state; sorry))
+    all_goals grind
   · simp at st
 
 
